@@ -46,6 +46,16 @@ CHECKS.update({
          "Every interleaving up to the depth bound over ids 1..3 is executed on the real handlers with genuine 2-member quorum votes; each step is compared with a reference life-cycle model (status, terms, paid amount, notices at most once, never both); in every distinct state 25 kinds of ill-formed process/replace/finalize variants must fail and leave the store unchanged.",
          KB_NOTE + " Withdrawal ids are unique (bridge contract); finalisation blocks are injected into BlockHashes.", "DESIGN.md section 4 C05"),
 })
+
+KA_NOTE = "Runs the real application (app.New on an in-memory DB, production baseapp options, goat's real engine client over a unix socket to a scripted fake execution layer). Every tree edge executes on a fork = deep copy of the DB under a new App (the restart path). Single validator proposes every block. Histories beyond the depth bound and menus other than the stated one are not covered."
+CHECKS.update({
+ "C06": ("chainmc", "depth-bounded tree search over block histories of the real ABCI application against a reference ledger of owed items; exhaustive system-transaction mutations at every node",
+         "Every history up to the depth bound over the queue-filling menu (incl. abandoned proposal rounds, failing execution-block messages, restarts, gap/rewrite hash batches) is executed through PrepareProposal/ProcessProposal/FinalizeBlock/Commit; the system transactions of every finalised payload are matched against a reference FIFO ledger (caps, consecutive nonces, exactly-once), traces are drained, and 9 payload mutations per node must be rejected.",
+         KA_NOTE, "DESIGN.md section 4 C06"),
+ "C09": ("chainmc", "depth-bounded tree search with a head monitor on every finalised block plus exhaustive single-fault injection over every engine call of a block",
+         "Every finalised block of every history up to the depth bound is checked by the head monitor; at every node up to the fault depth every placement of one engine fault (6 kinds) on each of the 5 engine calls is executed, aborted blocks are retried (after a real restart when FinalizeBlock failed) and compared with a fault-free replica.",
+         KA_NOTE + " Pairs of faults are not explored.", "DESIGN.md section 4 C09"),
+})
 PENDING = {}
 
 def main():
